@@ -166,6 +166,16 @@ func c03Check(c c03Case) (fs []rep.Finding) {
 		fs = append(fs, rep.F("legacy|unexpected-error", fmt.Sprintf("%v / %v", err, err2)))
 		return
 	}
+	// the returned preimage belongs to the caller: later hashing must not change it
+	held := append([]byte(nil), pre...)
+	for i := 0; i < 6 && bytes.Equal(pre, held); i++ {
+		_, _ = tx.CalcInputPreimageLegacy(uint32(i%len(tx.Inputs)), flag^sighash.Flag(1+i))
+		_, _ = tx.CalcInputSignatureHash(c.Idx, flag^sighash.Flag(0x80))
+	}
+	if !bytes.Equal(pre, held) {
+		fs = append(fs, rep.F("legacy|returned-preimage-changes-later", "a preimage returned earlier changed when further hashes were computed"))
+		pre = held
+	}
 	want, single := sighashref.LegacyPreimage(ref, int(c.Idx), sc, uint32(c.HT))
 	if single {
 		if !bytes.Equal(dig, sighashref.One) {
